@@ -10,6 +10,9 @@
                                           (= today's table with the three shipped defects repaired,
                                           identity once they are repaired) exists in today's API and its
                                           call fits the signature; likewise `main`'s own calls
+  * `table_is_intended`, `table_resolves_today`, `chassis_power_codes_today`
+                                          today's table IS the intended one (the three repairs are in the
+                                          source), so the two statements hold for `Gen.Cli.commands` itself
   * `table_resolves_asShipped_counterexample`, `asShipped_unresolved`, `intended_repairs_asShipped`
                                           the pinned table does NOT resolve: exactly three references
                                           (chassis power diag, chassis power soft, picmg channel power),
@@ -63,6 +66,20 @@ for the intended table over TODAY's source. -/
 theorem table_resolves :
     resolvesAll Gen.Cli.api (intended Gen.Cli.names Gen.Cli.commands) = true
     ∧ Gen.Cli.mainRefs.all (refOk Gen.Cli.api) = true := by decide +kernel
+
+/-- TODAY's table already IS the intended one: re-applying the three repairs changes no entry.
+`table_resolves` and `chassis_power_codes` are stated for `intended Gen.Cli.names Gen.Cli.commands`
+(so that the as-shipped counter-examples can be stated for the same function); without this
+equation a regression of exactly one of the three repaired entries
+(`chassis_control_power_soft_shutdown` again, …) would leave both of them building.  With it they
+are statements about `Gen.Cli.commands` itself (`table_resolves_today`, `chassis_power_codes_today`),
+and such a regression stops the build; the run's `_table_facts` then names the entry. -/
+theorem table_is_intended : intended Gen.Cli.names Gen.Cli.commands = Gen.Cli.commands := by
+  decide +kernel
+
+theorem table_resolves_today : resolvesAll Gen.Cli.api Gen.Cli.commands = true := by
+  have h := table_resolves.1
+  rwa [table_is_intended] at h
 
 /-- … stated pointwise -/
 theorem table_resolves_pointwise (c : Command) (hc : c ∈ intended Gen.Cli.names Gen.Cli.commands)
@@ -128,6 +145,10 @@ def chassisOk (cmds : List Command) (cc : List (Nat × Nat)) : Bool :=
 theorem chassis_power_codes :
     chassisOk (intended Gen.Cli.names Gen.Cli.commands) Gen.Cli.chassisControl = true := by
   decide +kernel
+
+theorem chassis_power_codes_today : chassisOk Gen.Cli.commands Gen.Cli.chassisControl = true := by
+  have h := chassis_power_codes
+  rwa [table_is_intended] at h
 
 /-- as shipped, `diag` and `soft` reach no chassis-control method at all -/
 theorem chassis_power_codes_asShipped_counterexample :
